@@ -186,11 +186,26 @@ Fixpoint c_add_many (k : ckind) (b : cblock) (xs : list (obj * option Z)) : opti
                     end
   end.
 
+(* remove_platforms(list): one remove_platform per element — a platform object or an index —, stopping at the first
+   refusal (what was removed stays removed) *)
+Inductive rkey := RKItem (x : obj) | RKIndex (i : Z).
+Definition c_remove1 (ieq : obj -> obj -> bool) (b : cblock) (k : rkey) : option err * cblock :=
+  match k with RKItem x => c_remove_item ieq b x | RKIndex i => c_remove_index b i end.
+Fixpoint c_remove_many (ieq : obj -> obj -> bool) (b : cblock) (ks : list rkey) : option err * cblock :=
+  match ks with
+  | [] => (None, b)
+  | k :: r => match c_remove1 ieq b k with
+              | (None, b') => c_remove_many ieq b' r
+              | (Some e, b') => (Some e, b')
+              end
+  end.
+
 Inductive ccall :=
 | CAdd (x : obj) (ch : option Z)
 | CRemoveLabel (s : list Z)                 (* EMG *)
 | CRemoveIndex (i : Z) | CRemoveItem (x : obj)   (* platform calibration *)
 | CAddMany (xs : list (obj * option Z))     (* add_platforms; the platform-data `platforms = [...]` setter (appends) *)
+| CRemoveMany (ks : list rkey)              (* platform calibration: remove_platforms *)
 | CAssign (xs : list (obj * option Z)).     (* the platform-calibration `platforms = [(channel, platform) ...]` setter:
                                                both lists are emptied first *)
 
@@ -201,6 +216,7 @@ Definition c_step (k : ckind) (ieq : obj -> obj -> bool) (b : cblock) (c : ccall
   | CRemoveIndex i => c_remove_index b i
   | CRemoveItem x => c_remove_item ieq b x
   | CAddMany xs => c_add_many k b xs
+  | CRemoveMany ks => c_remove_many ieq b ks
   | CAssign xs => c_add_many k (mkCB [] []) xs
   end.
 
